@@ -282,6 +282,7 @@ type World struct {
 	DpLocks  *KeyLocks
 	Inf      *FipInformerStub
 	LoadedCf int // configuration the process has loaded
+	ServedCf int // configuration the config map served at the last read
 }
 
 type FevRec struct {
@@ -533,6 +534,7 @@ func (c *cmIface) Get(ctx context.Context, name string, o metav1.GetOptions) (*c
 	if op != nil {
 		op.Last.Ret = map[string]interface{}{"ok": true, "conf": c.w.CfgCur + 1}
 	}
+	c.w.ServedCf = c.w.CfgCur
 	return &corev1.ConfigMap{ObjectMeta: metav1.ObjectMeta{Name: name, Namespace: "kube-system"},
 		Data: map[string]string{"floatingips": c.w.Cfgs[c.w.CfgCur].JSON()}}, nil
 }
